@@ -179,8 +179,8 @@ def pc_joint(df, on, df_2=None, gap_token='_'):
     """
     
     if df_2 is None:
-        return pc(df[on].apply(lambda x: gap_token.join(x.astype(str)), axis=1))
-    return pc(df[on].apply(lambda x: gap_token.join(x.astype(str)), axis=1), df_2[on].apply(lambda x: gap_token.join(x.astype(str)), axis=1))
+        return pc(df[on].fillna("").apply(lambda x: gap_token.join(x.astype(str)), axis=1))
+    return pc(df[on].fillna("").apply(lambda x: gap_token.join(x.astype(str)), axis=1), df_2[on].fillna("").apply(lambda x: gap_token.join(x.astype(str)), axis=1))
     
 def pc_grouped_cross(df, by, on):
     """Cross-group coincidence probability estimator
@@ -291,7 +291,7 @@ def stdpc(array):
 def stdpc_joint(df, on, gap_token = '_'):
     "Std.dev. estimator for joint Simpson's index"
 
-    return stdpc(df[on].apply(lambda x: gap_token.join(x.astype(str)), axis=1))
+    return stdpc(df[on].fillna("").apply(lambda x: gap_token.join(x.astype(str)), axis=1))
 
 def chao1(counts):
     """Estimate richness from sampled counts.
